@@ -139,3 +139,52 @@ def phdr(ef, j):
 
 def loadseg(ef, j):
     return phdr(ef, j).p_type == 'PT_LOAD'
+
+
+_chain_defs = {}
+
+
+@_native
+def chain_off(I, B, start, k, layout, field):
+    """offset of element k of a displacement-linked chain: element 0 at `start`, element k+1 at
+    element k + its `field` (the next displacement)"""
+    from pyvc.verify import register_recdef
+    name = 'chain!%s.%s' % (layout, field)
+    f = z3.Function(name, ArrS, IntS, IntS, IntS)
+    if name not in _chain_defs:
+        nxt = z3.Function('%s.%s' % (layout, field), ArrS, IntS, IntS)
+
+        def unfold(t, f=f, nxt=nxt):
+            arr, s0, kk = t.arg(0), t.arg(1), t.arg(2)
+            prev = f(arr, s0, kk - 1)
+            return [f(arr, s0, 0) == s0, z3.Implies(kk >= 1, t == prev + nxt(arr, prev))]
+        register_recdef(name, unfold)
+        _chain_defs[name] = f
+    arr = B.arr if hasattr(B, 'arr') else B
+    return f(arr, to_int(start), to_int(k))
+
+
+def _chain_off_py(B, start, k, layout, field):
+    o = start
+    for _ in range(k):
+        o += P.py(layout, B, o)[field]
+    return o
+
+
+chain_off.py = _chain_off_py
+
+
+@_native
+def gen_len(I, g):
+    from pyvc.vals import SGen
+    return g.seq.n if isinstance(g, SGen) else g.n
+
+
+@_native
+def gen_elem(I, g, i):
+    from pyvc.vals import SGen
+    return (g.seq if isinstance(g, SGen) else g).elem(to_int(i))
+
+
+gen_len.py = lambda g: len(g)
+gen_elem.py = lambda g, i: g[i]
